@@ -34,7 +34,13 @@ def analyse_cube(prog, module, clsname, max_depth=10):
     fr = I.run(fi)
     info = TaskInfo()
     info.fi, info.I, info.frame = fi, I, fr
-    top = [ev for ev in I.events if not ev.stack]
+    # "top level" = calculate itself, and private helper methods of the same class that it calls (a dispatch moved into
+    # `_map_subcubes(task)` is still calculate's dispatch) - but nothing below a task function
+    def _helper_frame(frame_fi):
+        q = getattr(frame_fi, "qualname", "") or ""
+        last = q.split(".")[-1]
+        return getattr(frame_fi, "cls", None) is not None and frame_fi.cls is fi.cls and last.startswith("_") and not last.startswith("__")
+    top = [ev for ev in I.events if not ev.stack or all(s[0] is fi or _helper_frame(s[0]) for s in ev.stack)]
     info.top = top
     # dispatch through a pool: the walker emits a callback event with via='pool.<m>'
     info.callbacks = [ev for ev in top if ev.kind == "call" and ev["via"] and ev["via"].startswith("pool.")]
